@@ -9,7 +9,11 @@
    * "compile" is the FREE constructor (visible sources, options, version): any real compiler
      factors through it; whether a compile raises is an arbitrary predicate `fails` on that triple;
    * option values are lists of small ids (booleans [0]/[1], library_folders = list of folder ids);
-     options are always the dictionary merged with the defaults (_options.py), as in api.py:305,495. *)
+     options are always the dictionary merged with the defaults (_options.py), as in api.py:305,495;
+   * codegen mode: the four shared libraries of the model folder are one object `libs` =
+     (what they were compiled from, os.name they were built for); a cache file written in codegen
+     mode refers to them by path (db[o] is a str) and load_model hands back whatever is on disk;
+   * os.name is part of the state (a model folder can be copied to another platform). *)
 From Coq Require Import ZArith List Bool Arith.
 Import ListNotations.
 
@@ -56,6 +60,26 @@ Fixpoint upd (p : path) (v : Z * nat) (f : fs) : fs :=
   | (q, w) :: f' => if path_eqb p q then (q, v) :: f' else (q, w) :: upd p v f'
   end.
 
+(* delete a file *)
+Fixpoint del (p : path) (f : fs) : fs :=
+  match f with
+  | [] => []
+  | (q, w) :: f' => if path_eqb p q then del p f' else (q, w) :: del p f'
+  end.
+
+Fixpoint lookup (p : path) (f : fs) : option (Z * nat) :=
+  match f with
+  | [] => None
+  | (q, w) :: f' => if path_eqb p q then Some w else lookup p f'
+  end.
+
+(* os.rename(p, q): q is replaced, the file keeps its mtime *)
+Definition ren (p q : path) (f : fs) : fs :=
+  match lookup p f with
+  | Some w => upd q w (del p f)
+  | None => f
+  end.
+
 (* [model_folder] + compiler_options["library_folders"]   (api.py:110 and api.py:312) *)
 Definition folders (o : opts) : list nat := 0 :: get K_library_folders o.
 Definition inview (o : opts) (p : path) : bool := existsb (Nat.eqb (fst p)) (folders o).
@@ -70,11 +94,18 @@ Record cache := Cache {
   c_mtime : Z;        (* os.path.getmtime(db_file) *)
   c_version : nat;    (* db["version"] *)
   c_opts : opts;      (* db["options"] *)
+  c_os : nat;         (* db["library_os"] *)
+  c_libs : bool;      (* db[o] is a path to a shared library (codegen) rather than a pickled Function *)
   c_model : cres;     (* what the pickled functions/metadata were compiled from *)
   c_snap : fs         (* ghost: the source tree at the time of the save *)
 }.
 
-Record state := State { files : fs; copts : opts; ver : nat; cch : option cache }.
+Record state := State {
+  files : fs; copts : opts; ver : nat;
+  osn : nat;                          (* os.name *)
+  libs : option (cres * nat);         (* <model>_*.so in the model folder: compiled from, built for *)
+  cch : option cache
+}.
 
 (* what is regenerated from api.py on every run *)
 Record cfg := Cfg {
@@ -104,11 +135,13 @@ Definition val_eqb : val -> val -> bool := list_eqb Nat.eqb.
 Definition opts_eqb : opts -> opts -> bool :=
   list_eqb (fun a b => Nat.eqb (fst a) (fst b) && val_eqb (snd a) (snd b)).
 
-(* load_model's acceptance checks in the order coded: mtime (309-317), version (335), options (341-346) *)
+(* load_model's acceptance checks in the order coded: mtime (309-317), version (335), options (341-346),
+   library_os when codegen (349-351) *)
 Definition load_ok (g : cfg) (s : state) (o : opts) (c : cache) : bool :=
   (negb (flag K_mtime_check o) || mtime_ok g o (c_mtime c) (files s))
   && (negb (vcheck g) || Nat.eqb (c_version c) (ver s))
-  && opts_eqb (strip g (c_opts c)) (strip g o).
+  && opts_eqb (strip g (c_opts c)) (strip g o)
+  && (negb (flag K_codegen o) || Nat.eqb (c_os c) (osn s)).
 
 (* transfer_model, api.py:495-514: codegen disables cache; caching forces expand_mx *)
 Definition effective (o : opts) : opts :=
@@ -120,7 +153,18 @@ Definition compile (s : state) (o : opts) : cres := (view o (files s), o, ver s)
 (* what a fresh compile of the current sources with the current options and version gives *)
 Definition ideal (s : state) : cres := compile s (effective (copts s)).
 
-Inductive out := Failed | Served (from_cache : bool) (r : cres).
+(* Served b r built: the returned model is compiled from r; built = Some n when its functions are
+   the shared libraries on disk, built for os n (ca.external), None for pickled / in-memory ones *)
+Inductive out := Failed | Served (from_cache : bool) (r : cres) (built : option nat).
+
+(* api.py:353-363: db[o] a str -> ca.external(path), else the pickled Function *)
+Definition loaded (s : state) (c : cache) : out :=
+  if c_libs c then
+    match libs s with
+    | Some (r, n) => Served true r (Some n)
+    | None => Failed
+    end
+  else Served true (c_model c) None.
 
 (* transfer_model, api.py:494-525.  `now` = the mtime the cache file gets if it is written. *)
 Definition transfer (g : cfg) (fails : cres -> bool) (s : state) (now : Z) : state * out :=
@@ -128,27 +172,41 @@ Definition transfer (g : cfg) (fails : cres -> bool) (s : state) (now : Z) : sta
   let r := compile s o in
   let recompile :=
     if fails r then (s, Failed)                                     (* exception propagates, nothing saved *)
-    else (State (files s) (copts s) (ver s) (Some (Cache now (ver s) o r (files s))), Served false r) in
+    else if flag K_codegen o then
+      (* save_model, codegen: cache file removed, the four libraries overwritten, cache file written *)
+      (State (files s) (copts s) (ver s) (osn s) (Some (r, osn s))
+             (Some (Cache now (ver s) o (osn s) true r (files s))), Served false r None)
+    else
+      (State (files s) (copts s) (ver s) (osn s) (libs s)
+             (Some (Cache now (ver s) o (osn s) false r (files s))), Served false r None) in
   if flag K_cache o || flag K_codegen o then
     match cch s with
-    | Some c => if load_ok g s o c then (s, Served true (c_model c)) else recompile
+    | Some c => if load_ok g s o c then (s, loaded s c) else recompile
     | None => recompile                                             (* FileNotFoundError *)
     end
-  else (s, if fails r then Failed else Served false r).
+  else (s, if fails r then Failed else Served false r None).
 
 Inductive op :=
 | Edit (p : path) (m : Z) (c : nat)      (* rewrite a .mo file *)
 | Add (p : path) (m : Z) (c : nat)       (* add a .mo file *)
 | SetOptions (o : opts)
 | SetVersion (v : nat)
-| Transfer (now : Z).
+| Transfer (now : Z)
+| Delete (p : path)                       (* remove a .mo file *)
+| Rename (p q : path)                     (* os.rename: the mtime is kept *)
+| SetOS (n : nat).                        (* the model folder is now used on another platform *)
+
+Definition with_files (s : state) (f : fs) : state := State f (copts s) (ver s) (osn s) (libs s) (cch s).
 
 Definition step (g : cfg) (fails : cres -> bool) (s : state) (a : op) : state * option out :=
   match a with
-  | Edit p m c | Add p m c => (State (upd p (m, c) (files s)) (copts s) (ver s) (cch s), None)
-  | SetOptions o => (State (files s) o (ver s) (cch s), None)
-  | SetVersion v => (State (files s) (copts s) v (cch s), None)
+  | Edit p m c | Add p m c => (with_files s (upd p (m, c) (files s)), None)
+  | SetOptions o => (State (files s) o (ver s) (osn s) (libs s) (cch s), None)
+  | SetVersion v => (State (files s) (copts s) v (osn s) (libs s) (cch s), None)
   | Transfer now => let '(s', r) := transfer g fails s now in (s', Some r)
+  | Delete p => (with_files s (del p (files s)), None)
+  | Rename p q => (with_files s (ren p q (files s)), None)
+  | SetOS n => (State (files s) (copts s) (ver s) n (libs s) (cch s), None)
   end.
 
 (* the trace: for every op the state it was applied in and its output *)
@@ -205,7 +263,7 @@ Fixpoint agree (g : cfg) (t : list (cres * (bool * nat))) (s : state) (ops : lis
           let '(s', r) := transfer g (table_fails t) s now in
           match r with
           | Failed => raised
-          | Served b m =>
+          | Served b m _ =>
               negb raised && Bool.eqb b cached
               && match table_ref t m with Some f => Nat.eqb f got | None => false end
           end && agree g t s' rest os'
@@ -216,7 +274,7 @@ Fixpoint agree (g : cfg) (t : list (cres * (bool * nat))) (s : state) (ops : lis
 
 Definition check_case (g : cfg) (c : case) : bool :=
   let '(f0, o0, v0, ops, os) := c in
-  let s0 := State f0 o0 v0 None in
+  let s0 := State f0 o0 v0 0 None None in
   agree g (shadow s0 ops os) s0 ops os.
 
 (* side condition of the theorems on the regenerated table (evaluated in run/C20/Tie_C20.v):
